@@ -197,8 +197,16 @@ func (s String) with(at int, char rune) Set {
 			holes:  s.holes,
 		}
 	}
-	// TODO: Support adding holes and doubling up chars, removing the need to
-	// call newGenericSetFromSet here.
+	if pos := at - s.offset; pos < 0 || pos >= len(s.s) || s.s[pos] < 0 {
+		// The position is vacant, so the result is still a string, with holes.
+		values := make([]Value, 0, s.Count()+1)
+		for e := s.Enumerator(); e.MoveNext(); {
+			values = append(values, e.Current())
+		}
+		return asString(append(values, NewStringCharTuple(at, char))...)
+	}
+	// TODO: Support doubling up chars, removing the need to call
+	// newGenericSetFromSet here.
 	return newGenericSetFromSet(s).With(NewStringCharTuple(at, char))
 }
 
